@@ -5,6 +5,7 @@ from .facts import strip_generics, Operand, Place
 from .analysis import sources, success_edges, reach_without_edges
 from .engine import Undecided
 from .rules_C14 import closure_args_of
+from . import preds, poscontrol
 
 TECHNIQUE = 'struct-field coverage (every field of Config, enumerated from the ADT definition, must reach the same-named tokio_postgres::Config setter by def-use origin), dominance order of the host / port groups and of the URL parse, error-constructor branch tables, variant tables of the From impls, panic-site inventory'
 LEVEL_TEXT = 'static analysis of every path of get_pg_config, builder, create_pool and the enum conversions of deadpool-postgres'
@@ -206,12 +207,12 @@ def run(ctx):
                     ctx.ob('R18.4', 'no assert in the configuration path', False, ctx.where(bb, t.line), t.j['msg'], construct='panic:assert:' + bb.name)
                 if t.kind == 'call':
                     n_calls += 1
-                    bad = [n for n in t.callee_names() if n.split('::')[-1] in ('unwrap', 'expect', 'unwrap_err', 'expect_err') or n.startswith('core::panicking') or n.startswith('std::panicking')
-                           or n.startswith('std::rt::begin_panic') or 'Index::index' in n]
+                    bad = preds.panic_call_names(t.callee_names())
                     if bad:
                         ctx.ob('R18.4', 'no panic site in the configuration path', False, ctx.where(bb, t.line), '/'.join(bad), construct='panic:%s:%s' % (bb.name, bad[0].split('::')[-1]))
     ctx.ob('R18.4', 'no panic site found among the calls of the configuration functions', True, '', '%d calls scanned' % n_calls, construct='panic:none', sites=[str(n_calls)])
     ctx.floor('R18.4', 'calls scanned in the configuration path', n_calls, 60)
+    poscontrol.assert_controls(ctx, ['panic:', 'assert:'])
 
     # ---- R18.5 pass-through --------------------------------------------------------------------------------------------------
     bl = prog.body('deadpool_postgres::config::Config::builder')
